@@ -107,6 +107,8 @@ def enc_recipe(r):
     out = {"k": r["k"], "args": [[n, enc(v)] for n, v in r["args"].items()]}
     if "set_types" in r:
         out["set_types"] = r["set_types"]
+    if r.get("subclass"):
+        out["subclass"] = True
     return out
 
 
@@ -124,7 +126,18 @@ def dec_recipe(j):
     out = {"k": j["k"], "args": {n: dec(v) for n, v in j["args"]}}
     if "set_types" in j:
         out["set_types"] = j["set_types"]
+    if j.get("subclass"):
+        out["subclass"] = True
     return out
+
+
+_SUBCLASSES = {}
+
+
+def _subclass_of(cls):
+    if cls not in _SUBCLASSES:
+        _SUBCLASSES[cls] = type("Tagged" + cls.__name__, (cls,), {"__module__": "user_code"})
+    return _SUBCLASSES[cls]
 
 
 def build(r):
@@ -139,6 +152,8 @@ def build(r):
         edges = [list(e) for e in r["edges"]] if r.get("edge_lists") else [tuple(e) for e in r["edges"]]
         return nir.NIRGraph(nodes=nodes, edges=edges, **kw)
     cls = getattr(nir, r["k"])
+    if r.get("subclass"):
+        cls = _subclass_of(cls)       # a user-defined subclass without new fields: still "a Conv2d" / "a SumPool2d" ...
     node = cls(**r["args"])
     if "set_types" in r:
         node.input_type = mat_ty(r["set_types"]["in"])
